@@ -198,6 +198,11 @@ func genEngCase(t *rapid.T) *Case {
 			}
 		}
 		prog.Outputs = append(prog.Outputs, ir.Output{ID: extra, E: e})
+		if _, explicit := prog.Explicit[extra]; explicit && extra != "spare" && rapid.Bool().Draw(t, "second_explicit_output") {
+			// several explicitly declared outputs, possibly several error outputs: the flag is the chosen one's
+			prog.Outputs = append(prog.Outputs, ir.Output{ID: "spare", E: ir.Obj(ir.F("x", ir.Ref("input", "n")))})
+			prog.Explicit["spare"] = rapid.Bool().Draw(t, "spare_error_flag")
+		}
 	}
 	if len(prog.Outputs) == 0 {
 		prog.Outputs = []ir.Output{{ID: "success", E: ir.Obj(ir.F("x", ir.Ref("input", "n")))}}
